@@ -54,19 +54,21 @@ structure Plan where
   badQuery : Bool := false
   reads : Option Nat := none
   closes : Nat := 1
+  /-- `request.show_tracebacks` in the *global* config: what applies to a path without a section -/
+  globalTb : Bool := true
   deriving Inhabited
 
-/-- A path without a config section and without a handler: the default dispatcher installs
-    `NotFound()` as the handler; only the global config applies (`show_tracebacks` true in the
-    harness' environment). -/
-def notFoundPage : Page := { handler := { out := .httpError 404 } }
+/-- A path without a config section and without a handler (the probe application's `default` raises
+    `NotFound()` for it): only the global config applies. -/
+def notFoundPage (globalTb : Bool) : Page := { handler := { out := .httpError 404 }, showTb := globalTb }
 
 /-- How a call of `AppResponse(environ, start_response, cpapp)` ends. -/
 inductive Init where
   /-- constructed; `start_response` was called; the request (number `r`, page `pg`) is still being served -/
   | served (st : St)
-  /-- an exception left `__init__` (after `self.close()`) -/
-  | raised (e : Exn)
+  /-- an exception left `__init__` (after `self.close()`); `tb` = the `show_tracebacks` attribute the
+      released Request object had (bookkeeping for the statement of C01, not used by the code) -/
+  | raised (e : Exn) (tb : Bool)
   deriving Repr, Inhabited
 
 /-- `AppResponse.__init__` for request object number `r`. -/
@@ -77,41 +79,41 @@ def appResponse (pg : Page) (meth : Method) (noHost badQuery : Bool) (r : Nat) :
     -- except BaseException: self.close(); raise
     let jc := closeRequest pg a.st
     -- close(): `self.iter_response` is not assigned yet → AttributeError when streaming
-    (tag r (a.j ++ jc), .raised (if streaming pg a.st then .exc else e))
+    (tag r (a.j ++ jc), .raised (if streaming pg a.st then .exc else e) (showTb pg a.st))
   | none =>
     if a.st.body = .page .nonIter then
       -- iter(r.body) raises TypeError; only a streamed body reaches this point uncollapsed
-      (tag r (a.j ++ closeRequest pg a.st), .raised .exc)
+      (tag r (a.j ++ closeRequest pg a.st), .raised .exc (showTb pg a.st))
     else
       (tag r a.j ++ [.start (a.st.out.getD 0) false], .served a.st)
 
 /-- Result of the `InternalRedirector` loop. -/
 inductive Redir where
   | served (st : St) (pg : Page) (r : Nat)
-  | raised (e : Exn)
+  | raised (e : Exn) (tb : Bool)
   /-- model artefact: never reached with the fuel `call` supplies (`CpProofs.C01.fuel_sufficient`) -/
   | outOfFuel
   deriving Inhabited
 
 /-- `InternalRedirector.__call__` (`recursive=False`). -/
-def redirector (pages : List Page) (noHost : Bool) :
+def redirector (pages : List Page) (noHost globalTb : Bool) :
     Nat → List (Nat × Bool) → Nat → Method → Bool → Nat → List Entry × Redir
   | 0, _, _, _, _, _ => ([], .outOfFuel)
   | fuel + 1, visited, cur, meth, badQuery, r =>
-    let pg := pages.getD cur notFoundPage
+    let pg := pages.getD cur (notFoundPage globalTb)
     let ar := appResponse pg meth noHost badQuery r
     match ar.2 with
     | .served st => (ar.1, .served st pg r)
-    | .raised e =>
+    | .raised e tb =>
       match e with
       | .internalRedirect t =>
         let visited' := visited ++ [(cur, badQuery)]       -- old_uri = path (+ '?' + qs)
         if (t, false) ∈ visited' then
-          (ar.1, .raised .exc)                     -- ir.request.close() is a no-op; RuntimeError
+          (ar.1, .raised .exc tb)                  -- ir.request.close() is a no-op; RuntimeError
         else
-          let res := redirector pages noHost fuel visited' t .get false (r + 1)
+          let res := redirector pages noHost globalTb fuel visited' t .get false (r + 1)
           (ar.1 ++ res.1, res.2)
-      | e => (ar.1, .raised e)
+      | e => (ar.1, .raised e tb)
 
 structure Result where
   j : List Entry
@@ -122,6 +124,12 @@ structure Result where
   /-- an exception left `__call__`, `__next__` or `close` -/
   escaped : Option Exn := none
   outOfFuel : Bool := false
+  /-- `show_tracebacks` attribute of the last Request object (what the statement of C01 calls
+      "tracebacks are switched off") -/
+  reqShowTb : Bool := true
+  /-- the trapper produced the response before the application callable returned, i.e. after the
+      request had been released -/
+  trappedAtInit : Bool := false
   deriving Inhabited
 
 /-- `_TrappedResponse.trap`: every modelled exception class derives from `Exception`, which `trap`
@@ -145,19 +153,20 @@ def closeCalls (pg : Page) (r : Nat) (st : St) : Nat → List Entry
 
 /-- The whole conversation: `app(environ, start_response)`, iteration, `close()`. -/
 def call (p : Plan) : Result :=
-  match redirector p.pages p.noHost (p.pages.length + 2) [] p.start p.meth p.badQuery 0 with
+  match redirector p.pages p.noHost p.globalTb (p.pages.length + 2) [] p.start p.meth p.badQuery 0 with
   | (j, .outOfFuel) => { j := j ++ List.replicate p.closes .closeCall, body := .empty, outOfFuel := true }
-  | (j, .raised e) =>
+  | (j, .raised e tb) =>
     if trapCatches e then
       -- the request was released: `cherrypy.request` is the class-default object, show_tracebacks = True
-      { j := j ++ [.start 500 true] ++ List.replicate p.closes .closeCall, body := .bare true }
-    else { j := j, body := .empty, escaped := some e }
+      { j := j ++ [.start 500 true] ++ List.replicate p.closes .closeCall, body := .bare true,
+        reqShowTb := tb, trappedAtInit := true }
+    else { j := j, body := .empty, escaped := some e, reqShowTb := tb }
   | (j, .served st pg r) =>
     if hitsRaise st.body p.reads then
       -- trap(next, …): the request is still current, its own show_tracebacks decides
       { j := j ++ [.start 500 true] ++ closeCalls pg r st p.closes, body := st.body,
-        tail := some (showTb pg st) }
+        tail := some (showTb pg st), reqShowTb := showTb pg st }
     else
-      { j := j ++ closeCalls pg r st p.closes, body := st.body }
+      { j := j ++ closeCalls pg r st p.closes, body := st.body, reqShowTb := showTb pg st }
 
 end CpModel.Wsgi
